@@ -184,6 +184,63 @@ class Recorder:
 
 
 # --------------------------------------------------------------------------
+# run one case in a short-lived forked child (isolates memory growth of the code under test)
+
+
+def forked(run_case):
+    """Wrap ``run_case(spec, rec)`` so that each case runs in its own forked child process.
+    The child's recorder entries, a Violation, or a harness error are passed back through a pipe.
+    Used where the code under test leaks memory per call (the annealers' C wrapper never releases
+    the result lists it builds), which would otherwise exhaust memory in long runs."""
+    import pickle
+
+    def wrapper(spec, rec):
+        r, w = os.pipe()
+        pid = os.fork()
+        if pid == 0:
+            code = 0
+            try:
+                os.close(r)
+                child = Recorder()
+                child.sub = rec.sub
+                try:
+                    run_case(spec, child)
+                    out = ("ok", None, child)
+                except Violation as v:
+                    out = ("violation", (v.kind, v.detail), child)
+                except BaseException as e:  # noqa
+                    out = ("error", "".join(traceback.format_exception(type(e), e, e.__traceback__))[-4000:], child)
+                c = out[2]
+                payload = pickle.dumps((out[0], out[1], c.evaluations, dict(c.classes), dict(c.counters),
+                                        sorted(c.nontrivial), c.samples))
+                with os.fdopen(w, "wb") as f:
+                    f.write(payload)
+            except BaseException:  # noqa
+                code = 3
+            finally:
+                os._exit(code)
+        os.close(w)
+        with os.fdopen(r, "rb") as f:
+            data = f.read()
+        _, status = os.waitpid(pid, 0)
+        if not data:
+            raise HarnessError("forked case died without a report (wait status %r)" % (status,))
+        kind, info, ev, classes, counters, nontrivial, samples = pickle.loads(data)
+        rec.evaluations += ev
+        rec.classes.update(classes)
+        rec.counters.update(counters)
+        rec.nontrivial.update(nontrivial)
+        for smp in samples:
+            if len(rec.samples) < 2 * Recorder.MAX_SAMPLES:
+                rec.samples.append(smp)
+        if kind == "violation":
+            raise Violation(info[0], info[1])
+        if kind == "error":
+            raise HarnessError("in forked case:\n" + info)
+    return wrapper
+
+
+# --------------------------------------------------------------------------
 # sub-check description
 
 
@@ -231,10 +288,17 @@ def known_signatures(prop):
 _HEART = {"arr": None, "shard": 0}
 
 
-def _beat():
+def _beat(spec=None):
     a = _HEART["arr"]
     if a is not None:
         a[_HEART["shard"]] = time.time()
+        d = _HEART.get("dir")
+        if d and spec is not None:
+            try:      # remember what this shard is working on, so that a stall can be diagnosed and replayed
+                with open(os.path.join(d, "shard%d.cur" % _HEART["shard"]), "w") as f:
+                    f.write(jdumps({"sub": _HEART.get("sub"), "spec": spec}))
+            except Exception:
+                pass
 
 
 def _run_sub_hypothesis(sub, n, seed, rec, shrink, known, collect=False):
@@ -248,7 +312,7 @@ def _run_sub_hypothesis(sub, n, seed, rec, shrink, known, collect=False):
         phases.append(Phase.shrink)
 
     def body(spec):
-        _beat()
+        _beat(spec)
         try:
             sub.run_case(spec, rec)
         except Violation as v:
@@ -298,12 +362,24 @@ def _run_shard(args):
     _HEART["shard"] = shard
     _beat()
     try:
+        import faulthandler
+        import signal
+        d = _HEART.get("dir")
+        if d:
+            _HEART["stackfile"] = open(os.path.join(d, "shard%d.stack" % shard), "w")
+            faulthandler.register(signal.SIGUSR1, file=_HEART["stackfile"], all_threads=True)
+            with open(os.path.join(d, "shard%d.pid" % shard), "w") as f:
+                f.write(str(os.getpid()))
+    except Exception:
+        pass
+    try:
         mod = importlib.import_module(modname)
         rec = Recorder()
         known = known_signatures(mod.ID)
         fail = None
         for sub in mod.subchecks(tier):
             rec.sub = sub.name
+            _HEART["sub"] = sub.name
             total = sub.quick if tier == "quick" else sub.thorough
             ns = nshards if not sub.max_shards else min(nshards, sub.max_shards)
             if shard >= ns:
@@ -312,7 +388,7 @@ def _run_shard(args):
                 for i, spec in enumerate(sub.enumerate(tier)):
                     if i % ns != shard:
                         continue
-                    _beat()
+                    _beat(spec)
                     try:
                         sub.run_case(spec, rec)
                     except Violation as v:
@@ -495,6 +571,11 @@ def run_property(modname, tier, seed, nshards=None, collect=False):
     limit = float(os.environ.get("VERIF_TIMEOUT", "0")) or (1500.0 if tier == "quick" else 6 * 3600.0)
     stall = float(os.environ.get("VERIF_STALL", "0")) or 300.0
     _HEART["arr"] = ctx.Array("d", [time.time()] * nshards, lock=False)
+    _HEART["dir"] = os.path.join(ROOT, ".run", "%s-%d" % (prop, os.getpid()))
+    os.makedirs(_HEART["dir"], exist_ok=True)
+    import atexit
+    import shutil
+    atexit.register(shutil.rmtree, _HEART["dir"], True)
     pool = ctx.Pool(nshards)
     try:
         ar = pool.map_async(_run_shard, jobs, chunksize=1)
@@ -513,6 +594,26 @@ def run_property(modname, tier, seed, nshards=None, collect=False):
             stuck = [i for i in range(nshards) if _HEART["arr"][i] > 0 and now - _HEART["arr"][i] > stall]
             if stuck:
                 reason = "shard(s) %r made no progress for %.0f s" % (stuck, stall)
+                try:      # where is it stuck? (python stack of the shard, via faulthandler)
+                    import signal
+                    pid = int(open(os.path.join(_HEART["dir"], "shard%d.pid" % stuck[0])).read())
+                    os.kill(pid, signal.SIGUSR1)
+                    time.sleep(1.0)
+                    st = open(os.path.join(_HEART["dir"], "shard%d.stack" % stuck[0])).read()
+                    sys.stderr.write("python stack of stuck shard %d:\n%s\n" % (stuck[0], st[-3000:]))
+                except Exception:
+                    pass
+                try:      # keep the case the first stuck shard was working on
+                    cur = open(os.path.join(_HEART["dir"], "shard%d.cur" % stuck[0])).read()
+                    os.makedirs(os.path.join(ROOT, "replays", prop), exist_ok=True)
+                    sp = os.path.join(ROOT, "replays", prop, "stuck-%d.json" % os.getpid())
+                    d = json.loads(cur)
+                    d.update({"property": prop, "kind": "stalled", "detail": reason})
+                    with open(sp, "w") as f:
+                        json.dump(d, f)
+                    reason += "; case saved to %s" % sp
+                except Exception:
+                    pass
                 break
         if reason:
             # a time budget hit is inconclusive, never a violation
